@@ -189,6 +189,15 @@ def col_term(c):
         cols = "[" + ";".join("(%s, (%d, (%s, [%s])))" % (bl(x["n"]), x["ty"], bl(x["pre"]), ";".join("(%d, %d)" % (o, sz) for o, sz in x["ent"]))
                               for x in cm["cols"]) + "]"
         terms.append("32 * check_cm (%d, (%d, (%d, (%s, %s)))) %s" % (cm["sid"], cm["off"], cm["size"], trs, cols, bl(cm["hex"])))
+    cs = c.get("cms")
+    if cs and cs.get("cm"):
+        m = cs["cm"]
+        trs = "[" + ";".join("(%d, %d)" % (a, b) for a, b in m["trs"]) + "]"
+        cols = "[" + ";".join("(%s, (%d, (%s, [%s])))" % (bl(x["n"]), x["ty"], bl(x["pre"]), ";".join("(%d, %d)" % (o, sz) for o, sz in x["ent"]))
+                              for x in m["cols"]) + "]"
+        dict_ = "[" + ";".join(bl(d) for d in cs["dict"]) + "]"
+        terms.append("4096 * check_cm_self %s %s %s (%d, (%d, (%d, (%s, %s)))) %s" % (
+            dict_, zs(cs["k"]), zl(cs["idxs"]) if all(i >= 0 for i in cs["idxs"]) else "[]", m["sid"], m["off"], m["size"], trs, cols, bl(cs["hex"])))
     return "(" + " + ".join(terms) + ")"
 
 
@@ -525,7 +534,7 @@ def evaluate(ck, cases):
 
 
 def slim(c):
-    d = {k: v for k, v in c.items() if k not in ("hex", "c", "d", "dv", "segs", "recj", "rowsj", "cm")}
+    d = {k: v for k, v in c.items() if k not in ("hex", "c", "d", "dv", "segs", "recj", "rowsj", "cm", "cms")}
     if c.get("pa"):
         d["pa"] = c["pa"]
     if c.get("mf"):
